@@ -208,6 +208,19 @@ def run(ctx):
             if not ok:
                 bad.append((v, 'decoded to %s' % ob))
     ctx.check(not bad, R3, 'urldecode:plain-bytes-and-plus', ('byte %02X: %s' % bad[0]) if bad else '', ud.where)
+    # what counts as a %XX escape: xdigit() is true for exactly 0-9 a-f A-F over every value a (signed or unsigned) char can arrive as - anything else after a % is plain text, not an
+    # escape (a wider test hands sscanf something it converts nothing from, and an indeterminate byte comes out)
+    xd = [g for g in P.fns.values() if g.short == 'xdigit' and g.body is not None and len(g.params) == 1]
+    ctx.require(len(xd) == 1 or ctx.violations, 'C15.R3: http::protocol::xdigit not found (%d)' % len(xd))
+    if xd:
+        accx = set()
+        for (bx, rv, it) in absint.explore(P, lambda it: it.call_fn(xd[0], [it.inbyte(0)]), [[(-128, 255)]]):
+            if not (isinstance(rv, AV) and rv.is_const()):
+                accx.add(None)
+            elif rv.lo:
+                accx |= set(range(bx[0][0], bx[0][1] + 1))
+        wantx = set(range(48, 58)) | set(range(97, 103)) | set(range(65, 71))
+        ctx.check(accx == wantx, R3, 'xdigit:exactly-the-hex-digits', 'values accepted as a hex digit beyond 0-9 a-f A-F: %s; missing: %s' % (sorted(x for x in accx - wantx if x is not None)[:12], sorted(wantx - accx)[:12]), xd[0].where)
     # sequences: after a unit (one plain byte, or %hh) the decoder continues exactly behind it - "%41" X and X "%41" for every byte X,
     # and two escapes in a row
     bad = []
